@@ -144,6 +144,8 @@ class DepSet(boolean.AndRestriction, caching=False):
                             words.appendleft((k2,))
                         else:
                             k3 = next(words)
+                            if k3 in ("(", ")"):
+                                raise DepsetParseError(dep_str, k3, attr=attr)
                             # file rename
                             depsets[-1].append(element_func(k, k3))
                 else:
